@@ -9,6 +9,35 @@ Proof.
   constructor; cbn; intros; try reflexivity; try constructor; try contradiction.
 Qed.
 
+(* POST labels with lists that are the label views: nothing observable changes *)
+Lemma post_labels_views bs G s ls :
+  ViewsI bs G s -> guard bs G (body s) (OLabels ls) ->
+  ViewsI bs G (mkS (blk s) (tgs s) (post_labels ls (lbl s)) (cnt s) (body s)).
+Proof.
+  intros V Hg. cbn [guard] in Hg. unfold post_labels.
+  assert (Hinv : forall lb,
+     (forall l, l <> 0%N -> is_nview (fun e => body s (e_pos e) = l) G (nget lb l)) -> nget lb 0%N = [] ->
+     (forall l, l <> 0%N -> is_nview (fun e => body s (e_pos e) = l) G
+          (nget (fold_left (fun acc le => if (fst le =? 0)%N then acc else aput (fst le) (snd le) acc) ls lb) l))
+     /\ nget (fold_left (fun acc le => if (fst le =? 0)%N then acc else aput (fst le) (snd le) acc) ls lb) 0%N = []).
+  { induction ls as [|[l0 es0] ls IH]; intros lb Hv H0; cbn [fold_left fst snd]; [auto|].
+    apply IH.
+    - intros l es Hin. apply Hg. now right.
+    - intros l Hl. destruct (l0 =? 0)%N eqn:E0; [now apply Hv|]. rewrite nget_aput. destruct (l0 =? l)%N eqn:E; [|now apply Hv].
+      apply N.eqb_eq in E. subst l0.
+      apply (nview_perm (on_body (body s) l) (fun e => body s (e_pos e) = l)); [intro e; apply on_body_true | apply (vi_uniq _ _ _ V)|].
+      apply Hg; [now left | exact Hl].
+    - destruct (l0 =? 0)%N eqn:E0; [exact H0|]. rewrite nget_aput, E0. exact H0. }
+  destruct (Hinv (lbl s) (vi_label _ _ _ V) (vi_label0 _ _ _ V)) as [Hv H0].
+  constructor; cbn [blk tgs lbl cnt body]; try apply V; auto.
+  intros i l Hl. rewrite (vi_count _ _ _ V i l Hl).
+  assert (P1 : Permutation (nget (lbl s) l) (map nr (filter (on_body (body s) l) G))).
+  { apply (nview_perm (on_body (body s) l) (fun e => body s (e_pos e) = l)); [intro e; apply on_body_true | apply (vi_uniq _ _ _ V) | now apply (vi_label _ _ _ V)]. }
+  assert (P2 : Permutation (nget (fold_left (fun acc le => if (fst le =? 0)%N then acc else aput (fst le) (snd le) acc) ls (lbl s)) l) (map nr (filter (on_body (body s) l) G))).
+  { apply (nview_perm (on_body (body s) l) (fun e => body s (e_pos e) = l)); [intro e; apply on_body_true | apply (vi_uniq _ _ _ V) | now apply Hv]. }
+  rewrite (count_idx_perm i _ _ P1), (count_idx_perm i _ _ P2). reflexivity.
+Qed.
+
 (* one request or label event *)
 Lemma viewsI_step bs G s o :
   ViewsI bs G s -> guard bs G (body s) o ->
@@ -16,7 +45,7 @@ Lemma viewsI_step bs G s o :
   /\ body (step_or_stay fixed bs o s) = body_after bs o (body s)
   /\ step fixed bs o s <> Panic.
 Proof.
-  intros V Hg. unfold step_or_stay. destruct o as [ord es|p|f t|bl|t m|t c incl|o n bls inspl|b pv d|b d].
+  intros V Hg. unfold step_or_stay. destruct o as [ord es|p|f t|bl|ls|t m|t c incl|o n bls inspl|b pv d|b d].
   - cbn [step gstep body_after]. destruct Hg as [ND Hord]. destruct (elems_ok es) eqn:Hok.
     + destruct (post_views bs G s ord es V ND Hord Hok) as [s' [E [Eb V']]]. rewrite E. split; [exact V' | split; [exact Eb | discriminate]].
     + unfold store_elements. cbn [fx_valid fixed]. rewrite Hok. cbn [negb andb]. split; [exact V | split; [reflexivity | discriminate]].
@@ -25,6 +54,7 @@ Proof.
     + split; [exact V' | split; [exact Eb | discriminate]].
   - exact (move_views bs G s f t V Hg).
   - exact (reload_views bs G s bl V Hg).
+  - cbn [step gstep body_after]. split; [exact (post_labels_views bs G s ls V Hg) | split; [reflexivity | discriminate]].
   - destruct (merge_views bs G s t m V Hg) as [s' [E [Eb V']]]. rewrite E. cbn [gstep]. split; [exact V' | split; [exact Eb | discriminate]].
   - destruct (cleave_views bs G s t c incl V Hg) as [s' [E [Eb V']]]. rewrite E. cbn [gstep]. split; [exact V' | split; [exact Eb | discriminate]].
   - destruct (split_views bs G s o n bls inspl V Hg) as [s' [E [Eb V']]]. rewrite E. cbn [gstep]. split; [exact V' | split; [exact Eb | discriminate]].
